@@ -284,6 +284,14 @@ func (s *SMT) typeTag(t types.Type) string {
 	if _, ok := s.typeTags[k]; !ok {
 		s.typeTags[k] = len(s.typeTags) + 1
 		s.tagOrder = append(s.tagOrder, k)
+		// typename(x): the unqualified name of the dynamic type (spec builtin)
+		name := k
+		if i := strings.LastIndex(name, "."); i >= 0 {
+			name = name[i+1:]
+		}
+		name = strings.TrimLeft(name, "*")
+		s.declare("tyname", "(declare-fun tyname (Int) Str)")
+		s.axioms = append(s.axioms, fmt.Sprintf("(= (tyname %d) %s)", s.typeTags[k], s.strLit(name)))
 	}
 	return fmt.Sprintf("%d", s.typeTags[k])
 }
